@@ -120,6 +120,8 @@ func c13Run(e *Env) {
 	var liveObs []liveOb
 	obsToken := map[int][]byte{} // exchange index -> token of its registration, as seen on the wire
 	regOutcome := map[string]int{}
+	onewayAnswered := map[int]bool{}
+	onewayOpen := false
 	liveCount := 0
 	w.OnRecv = func(m *WMsg) {
 		if IsDatagram(tr) && (m.Type == TACK || m.Type == TRST) {
@@ -190,6 +192,13 @@ func c13Run(e *Env) {
 				return
 			}
 		}
+		if len(m.Token) == 2 && m.Token[0] == 0x73 {
+			if outcome == 0 || outcome == 1 {
+				onewayAnswered[int(m.Token[1])] = true
+			} else {
+				onewayOpen = true // the peer never answers the final block: the kept request waits for its deadline
+			}
+		}
 		switch outcome {
 		case 0:
 			reply(0x45, opts, []byte("ok"), "answer")
@@ -212,7 +221,10 @@ func c13Run(e *Env) {
 	}
 
 	startEx := func() {
-		x := &exch{idx: len(exs), kind: t.Weighted(4, 1, 2, 1, 1, 1, 2, 1)}
+		x := &exch{idx: len(exs), kind: t.Weighted(4, 1, 2, 1, 1, 1, 2, 1, 1)}
+		if x.kind == 8 && !bw {
+			x.kind = 5
+		}
 		to := []time.Duration{30 * time.Second, 3 * time.Second, 100 * time.Second, 0}[t.Choose(4)]
 		x.call = e.NewCall(fmt.Sprintf("ex%d", x.idx), x.idx, nil, to)
 		exs = append(exs, x)
@@ -284,6 +296,16 @@ func c13Run(e *Env) {
 				m.SetCode(codes.Content)
 				m.SetToken(message.Token{0x72, byte(x.idx)})
 				m.SetBody(bytes.NewReader([]byte("one-way")))
+				return nil, w.API.WriteMessage(m)
+			case 8:
+				// a one-way request with a body of several blocks: WriteMessage returns when the first block is out, the
+				// rest is served from the kept request as the peer asks for it
+				e.Probe("oneway.blockwiseRequest")
+				m := w.API.AcquireMessage(ctx)
+				defer w.API.ReleaseMessage(m)
+				if err := m.SetupPost("/oneway-big", message.Token{0x73, byte(x.idx)}, message.AppOctets, bytes.NewReader(Body(x.idx, 50)), QueryOpt(x.idx)); err != nil {
+					return nil, err
+				}
 				return nil, w.API.WriteMessage(m)
 			default:
 				req := w.API.AcquireMessage(ctx)
@@ -392,6 +414,14 @@ func c13Run(e *Env) {
 	// left - only time-bounded data (cached replies, partially received bodies) may wait for its deadline
 	if w.API.Context().Err() == nil {
 		now := w.TableSizes()
+		onewayUnfinished := func() bool {
+			for _, x := range exs {
+				if x.kind == 8 && !onewayAnswered[x.idx] {
+					return true
+				}
+			}
+			return false
+		}
 		hadObserve := false
 		for _, x := range exs {
 			if x.kind == 2 {
@@ -401,6 +431,9 @@ func c13Run(e *Env) {
 		// (every exchange of this scenario is one the connection initiated: what has been collected of a block-wise
 		// response belongs to the call that asked for it and goes when the call ends, whatever its deadline was)
 		for _, k := range []string{"tokenHandlers", "midHandlers", "msgIDLocks", "bwSending", "bwReceiving", "limiterEndpoints", "limiterWaiters"} {
+			if (k == "bwSending" || k == "bwReceiving") && (onewayOpen || onewayUnfinished()) {
+				continue // a one-way upload the peer has not answered to the end: its request is kept until the deadline
+			}
 			if (k == "bwSending" || k == "bwReceiving") && hadObserve {
 				// a block-wise notification makes the library fetch the rest with a request of its own (fresh
 				// token, bounded by the transfer timeout): that internal exchange may still be under way
